@@ -666,10 +666,23 @@ pub fn c10builtins(repo: &Path) -> Result<String, String> {
         // list_get: `let idx = idx.try_into().ok(); match idx.and_then(|idx| this.get(idx)) { … }`
         let f = find::func(&list, "list_get", None)?;
         let first = f.block.stmts.first().ok_or("list_get: empty")?.clone();
-        let scrut = match f.block.stmts.get(1) {
-            Some(Stmt::Expr(Expr::Match(m), _)) => (*m.expr).clone(),
-            _ => return Err("list_get: expected `match idx.and_then(..)` as second statement".into()),
-        };
+        // between the index conversion and the lookup only the lock acquisition
+        // (`let raw = this.0.lock().unwrap();`, the lock events are C10C's / C16's
+        // subject) and cfg(verif-hooks) statements may stand
+        let mut scrut = None;
+        for st in f.block.stmts.iter().skip(1) {
+            let txt = st.to_token_stream().to_string().replace(' ', "");
+            if txt.starts_with("#[cfg(feature=\"verif-hooks\")]") { continue; }
+            if let Stmt::Local(_) = st {
+                if txt.ends_with("=this.0.lock().unwrap();") { continue; }
+            }
+            if let Stmt::Expr(Expr::Match(m), _) = st { scrut = Some((*m.expr).clone()); }
+            break;
+        }
+        let scrut = scrut.ok_or("list_get: expected `match idx.and_then(..)` after the index conversion (and the lock acquisition)")?;
+        // the guard dereferences to the same RawList the binding names `this`
+        let scrut: Expr = syn::parse_str(&scrut.to_token_stream().to_string().replace("raw . get", "this . get"))
+            .map_err(|e| format!("list_get: {e}"))?;
         w2.self_methods.insert("get".into(), "RawList_get".into());
         let blk = syn::Block { brace_token: Default::default(), stmts: vec![first, Stmt::Expr(scrut, None)] };
         out.push_str(&emit(&w2, "list_get_lookup", "(this : RawListS) (idx : U64)", "Option USz", &blk)?);
